@@ -172,6 +172,13 @@ fn main() {
                 }
             }
         }
+        // format --cases F : RoocParser::format round trips (C11)
+        "format" => {
+            let cases = read_cases(&arg(&args, "--cases").expect("--cases"));
+            for c in &cases {
+                writeln!(out, "{}", text::format_event(c)).unwrap();
+            }
+        }
         _ => {
             eprintln!("usage: rv <lin> ...");
             std::process::exit(2);
